@@ -40,7 +40,7 @@ class SynGen:
         if x < 0.5:
             return C.mk_float(r.choice([1.5, -0.25, 2.75, 0.5, 100.0, 1.0, -3.0, 1e5]))
         if x < 0.8:
-            return C.mk_text(r.choice(["", "a", "key", "x y", "é€", "q\"uo\\te", "semi;colon", "tab\tnl\n", "\U0001F600", "a/b"]))
+            return C.mk_text(r.choice(["", "a", "key", "x y", "é€", "q\"uo\\te", "semi;colon", "tab\tnl\n", "\U0001F600", "a/b", "\U0010FFFF", "x\U00100000", "\uFFFF\U00010000"]))
         return C.mk_bytes(r.choice([b"", b"a", b"\x01\x02", b"abc", b"\xff\x00", b"q;r"]))
 
     def tref(self):
@@ -208,7 +208,9 @@ def spell_text(rnd, s):
             out += "\\r"
         elif o < 0x20 or o == 0x7F:
             out += "\\u%04x" % o
-        elif rnd is not None and rnd.random() < 0.15:
+        elif o > 0x10FFFD:
+            out += "\\u{%X}" % o            # beyond SCHAR: only as an escape
+        elif rnd is not None and rnd.random() < (0.5 if o > 0xFFFF else 0.15):
             if o > 0xFFFF:
                 if rnd.random() < 0.5:
                     v = o - 0x10000
